@@ -295,14 +295,7 @@ func (f *Frame) applyContract(fn *ssa.Function, fc *FuncContract, args []Val, in
 	}
 	var ms *ModSet
 	if fc.HasMods {
-		ms = &ModSet{Maps: map[string]bool{}}
-		for _, m := range fc.Mods {
-			if m == "*" {
-				ms.All = true
-			} else {
-				ms.Maps[m] = true
-			}
-		}
+		ms = g.P.DeclaredMods(fc)
 	} else {
 		ms = g.P.ModSetOf(fn)
 	}
